@@ -1,8 +1,10 @@
 //! Generator of the `sqlck` stream of C05: data models, data sets and queries of the fragment the Lean model of the
-//! SQL compiler covers (lean/DiscretModel/Model/SqlGen.lean): one entity selection, scalar fields (required /
-//! nullable / default / added later / nullable turned default) and `id`, aliases, filters with every operator on
-//! selected aliases and on selected or unselected fields (literal, parameter, null), order_by on 0-3 keys,
-//! first / skip, before / after. Every query is followed by `run` (evaluator) and `sqlck` (compiler model).
+//! SQL compiler covers (lean/DiscretModel/Model/SqlGen.lean, SqlGenSub.lean): an entity selection with scalar
+//! fields (required / nullable / default / added later / nullable turned default) and `id`, aliases, filters with
+//! every operator on selected aliases and on selected or unselected fields (literal, parameter, null), order_by on
+//! 0-3 keys, first / skip, before / after; and, in about half of the queries, one level of sub-selections through
+//! entity and array reference fields (each again with its own filters, order, limits, cursors; nullable()).
+//! Every query is followed by `run` (evaluator) and `sqlck` (compiler model).
 use crate::util::*;
 use dvcommon::Gen;
 use std::io::{BufWriter, Write};
@@ -10,6 +12,7 @@ use std::io::{BufWriter, Write};
 #[derive(Clone)]
 struct F {
     ty: char,
+    to: usize,
     md: char,
     dv: Option<Val>,
     late: bool,
@@ -28,22 +31,26 @@ fn pool_val(ty: char, g: &mut Gen) -> Val {
 }
 
 fn gen_schema(g: &mut Gen) -> Vec<Vec<F>> {
-    let n = 1 + g.below(2);
+    let n = 1 + g.below(3);
     let mut ents = vec![];
     for _ in 0..n {
-        let mut fs = vec![F { ty: 'I', md: 'r', dv: None, late: false, then: None }];
+        let mut fs = vec![F { ty: 'I', to: 0, md: 'r', dv: None, late: false, then: None }];
         for _ in 0..(2 + g.below(4)) {
             let ty = ['I', 'S', 'B'][g.below(3)];
             let md = ['r', 'n', 'd'][g.weighted(&[2, 4, 4])];
             let dv = if md == 'd' { Some(pool_val(ty, g)) } else { None };
             let then = if md == 'n' && g.chance(1, 4) { Some(pool_val(ty, g)) } else { None };
-            fs.push(F { ty, md, dv, late: false, then });
+            fs.push(F { ty, to: 0, md, dv, late: false, then });
+        }
+        for _ in 0..g.below(3) {
+            let ty = if g.chance(1, 2) { 'R' } else { 'A' };
+            fs.push(F { ty, to: g.below(n), md: if g.chance(1, 2) { 'n' } else { 'r' }, dv: None, late: false, then: None });
         }
         for _ in 0..g.below(3) {
             let ty = ['I', 'S', 'B'][g.below(3)];
             let md = if g.chance(2, 3) { 'd' } else { 'n' };
             let dv = if md == 'd' { Some(pool_val(ty, g)) } else { None };
-            fs.push(F { ty, md, dv, late: true, then: None });
+            fs.push(F { ty, to: 0, md, dv, late: true, then: None });
         }
         ents.push(fs);
     }
@@ -58,26 +65,38 @@ fn data_val(g: &mut Gen, seen: &[Val], ty: char) -> Val {
     }
 }
 
-fn gen_query(g: &mut Gen, e: &[F], ent: usize, seen: &[Vec<Val>], lines: &mut Vec<String>) {
-    let alias = if g.chance(1, 4) { Some(format!("res{}", g.below(3))) } else { None };
-    lines.push(match &alias {
-        Some(a) => format!("q n=0 ent={} alias={}", ent, a),
-        None => format!("q n=0 ent={}", ent),
+struct Ctx<'a> {
+    g: &'a mut Gen,
+    s: &'a Vec<Vec<F>>,
+    seen: &'a Vec<Vec<Vec<Val>>>,
+    lines: Vec<String>,
+    next_node: usize,
+    alias_n: usize,
+}
+
+/// emits the lines of one selection node; returns its node number
+fn gen_node(cx: &mut Ctx, ent: usize, depth: usize, with_subs: bool) -> usize {
+    let n = cx.next_node;
+    cx.next_node += 1;
+    let e = cx.s[ent].clone();
+    let alias = if depth == 0 && cx.g.chance(1, 4) { Some(format!("res{}", cx.g.below(3))) } else { None };
+    cx.lines.push(match &alias {
+        Some(a) => format!("q n={} ent={} alias={}", n, ent, a),
+        None => format!("q n={} ent={}", n, ent),
     });
-    let nf = e.len();
+    let scalars: Vec<usize> = e.iter().enumerate().filter(|(_, f)| "ISB".contains(f.ty)).map(|(j, _)| j).collect();
     // ---- selection
     let mut selected: Vec<(String, usize, bool)> = vec![];
-    let mut alias_n = 0;
-    if g.chance(3, 4) {
+    if cx.g.chance(3, 4) {
         selected.push(("f0".into(), 0, false));
     }
-    for j in 1..nf {
-        if g.chance(1, 2) {
-            if g.chance(2, 5) {
-                alias_n += 1;
-                selected.push((format!("a{}", alias_n), j, true));
+    for &j in &scalars[1..] {
+        if cx.g.chance(1, 2) {
+            if cx.g.chance(2, 5) {
+                cx.alias_n += 1;
+                selected.push((format!("a{}", cx.alias_n), j, true));
                 // the same field may be selected twice, under two keys
-                if g.chance(1, 6) {
+                if cx.g.chance(1, 6) {
                     selected.push((format!("f{}", j), j, false));
                 }
             } else {
@@ -86,49 +105,79 @@ fn gen_query(g: &mut Gen, e: &[F], ent: usize, seen: &[Vec<Val>], lines: &mut Ve
         }
     }
     if selected.is_empty() {
-        selected.push(("a9".into(), 0, true));
+        cx.alias_n += 1;
+        selected.push((format!("a{}", cx.alias_n), 0, true));
     }
-    let id_at = if g.chance(1, 3) { Some(g.below(selected.len() + 1)) } else { None };
-    for (k, (key, j, _)) in selected.iter().enumerate() {
-        if id_at == Some(k) {
-            lines.push(format!("qs n=0 key={} f=id", if g.chance(1, 2) { "id" } else { "rid" }));
+    let id_at = if cx.g.chance(1, 3) { Some(cx.g.below(selected.len() + 1)) } else { None };
+    // sub-selections are placed among the scalar selections
+    let mut subs: Vec<(usize, String, usize, usize)> = vec![]; // position, key, field, child node
+    let mut sub_keys: Vec<String> = vec![];
+    if with_subs && depth == 0 {
+        for (j, f) in e.iter().enumerate() {
+            if (f.ty == 'R' || f.ty == 'A') && cx.g.chance(3, 5) {
+                let child = gen_node(cx, f.to, 1, false);
+                let key = if cx.g.chance(1, 3) {
+                    cx.alias_n += 1;
+                    format!("s{}", cx.alias_n)
+                } else {
+                    format!("f{}", j)
+                };
+                let pos = cx.g.below(selected.len() + 1);
+                subs.push((pos, key.clone(), j, child));
+                sub_keys.push(key);
+            }
         }
-        lines.push(format!("qs n=0 key={} f={}", key, j));
     }
-    if id_at == Some(selected.len()) {
-        lines.push(format!("qs n=0 key={} f=id", if g.chance(1, 2) { "id" } else { "rid" }));
+    for k in 0..=selected.len() {
+        for (pos, key, j, child) in &subs {
+            if *pos == k {
+                cx.lines.push(format!("qe n={} key={} f={} child={}", n, key, j, child));
+            }
+        }
+        if id_at == Some(k) {
+            cx.lines.push(format!("qs n={} key={} f=id", n, if cx.g.chance(1, 2) { "id" } else { "rid" }));
+        }
+        if k < selected.len() {
+            cx.lines.push(format!("qs n={} key={} f={}", n, selected[k].0, selected[k].1));
+        }
+    }
+    for k in &sub_keys {
+        if cx.g.chance(1, 3) {
+            cx.lines.push(format!("qn n={} key={}", n, k));
+        }
     }
     // ---- filters
-    for _ in 0..g.weighted(&[2, 4, 3, 1]) {
-        let use_alias = g.chance(2, 5) && selected.iter().any(|x| x.2);
+    let nfl = if depth == 0 { cx.g.weighted(&[3, 4, 2, 1]) } else { cx.g.weighted(&[5, 4, 1, 0]) };
+    for _ in 0..nfl {
+        let use_alias = cx.g.chance(2, 5) && selected.iter().any(|x| x.2);
         let (name, j, sel) = if use_alias {
             let al: Vec<&(String, usize, bool)> = selected.iter().filter(|x| x.2).collect();
-            let x = al[g.below(al.len())];
+            let x = al[cx.g.below(al.len())];
             (x.0.clone(), x.1, true)
         } else {
-            let j = g.below(nf);
+            let j = scalars[cx.g.below(scalars.len())];
             (format!("f{}", j), j, false)
         };
         let f = &e[j];
-        let var = g.chance(2, 5);
+        let var = cx.g.chance(2, 5);
         let nullable_now = f.md == 'n' && f.then.is_none();
-        let (op, v) = if nullable_now && g.chance(1, 4) {
-            (if var { ["eq", "ne", "lt", "ge"][g.below(4)] } else { ["eq", "ne", "eq", "ne", "lt", "ge"][g.below(6)] }, Val::Null)
+        let (op, v) = if nullable_now && cx.g.chance(1, 4) {
+            (if var { ["eq", "ne", "lt", "ge"][cx.g.below(4)] } else { ["eq", "ne", "eq", "ne", "lt", "ge"][cx.g.below(6)] }, Val::Null)
         } else {
-            (["eq", "ne", "lt", "le", "gt", "ge"][g.below(6)], data_val(g, &seen[j], f.ty))
+            (["eq", "ne", "lt", "le", "gt", "ge", "ne", "le", "ge"][cx.g.below(9)], data_val(cx.g, &cx.seen[ent][j], f.ty))
         };
-        lines.push(format!("qf n=0 name={} sel={} f={} op={} v={}{}", name, sel as u8, j, op, v.show(), if var { " var=1" } else { "" }));
+        cx.lines.push(format!("qf n={} name={} sel={} f={} op={} v={}{}", n, name, sel as u8, j, op, v.show(), if var { " var=1" } else { "" }));
     }
     // ---- order, limits, cursors
     let mut orders: Vec<(String, usize, bool)> = vec![];
-    for _ in 0..g.weighted(&[2, 4, 3, 1]) {
-        let use_alias = g.chance(2, 5) && selected.iter().any(|x| x.2);
+    for _ in 0..cx.g.weighted(&[2, 4, 3, 1]) {
+        let use_alias = cx.g.chance(2, 5) && selected.iter().any(|x| x.2);
         let (name, j, sel) = if use_alias {
             let al: Vec<&(String, usize, bool)> = selected.iter().filter(|x| x.2).collect();
-            let x = al[g.below(al.len())];
+            let x = al[cx.g.below(al.len())];
             (x.0.clone(), x.1, true)
         } else {
-            let j = g.below(nf);
+            let j = scalars[cx.g.below(scalars.len())];
             (format!("f{}", j), j, false)
         };
         if orders.iter().any(|o| o.0 == name) {
@@ -136,36 +185,42 @@ fn gen_query(g: &mut Gen, e: &[F], ent: usize, seen: &[Vec<Val>], lines: &mut Ve
         }
         orders.push((name, j, sel));
     }
-    let limited = g.chance(2, 5);
-    let cursor = !orders.is_empty() && g.chance(1, 3);
-    if limited && !orders.iter().any(|o| o.1 == 0) {
-        // a unique last key makes the selected set well defined
+    let limited = cx.g.chance(2, 5);
+    let cursor = !orders.is_empty() && cx.g.chance(if depth == 0 { 1 } else { 1 }, if depth == 0 { 3 } else { 5 });
+    let is_single_ref_child = false;
+    let _ = is_single_ref_child;
+    if (limited || depth > 0) && !orders.iter().any(|o| o.1 == 0) {
+        // a unique last key makes the selected set (and the row a single reference shows) well defined
         match selected.iter().find(|x| x.1 == 0) {
             Some(x) => orders.push((x.0.clone(), 0, x.2)),
             None => orders.push(("f0".into(), 0, false)),
         }
     }
     for (name, j, sel) in &orders {
-        lines.push(format!("qo n=0 name={} sel={} f={} dir={}", name, *sel as u8, j, if g.chance(2, 5) { "desc" } else { "asc" }));
+        cx.lines.push(format!("qo n={} name={} sel={} f={} dir={}", n, name, *sel as u8, j, if cx.g.chance(2, 5) { "desc" } else { "asc" }));
     }
     if limited {
-        let first = if g.chance(1, 5) { 0 } else { 1 + g.below(4) };
-        let skip = g.below(3);
+        let first = if cx.g.chance(1, 5) { 0 } else { 1 + cx.g.below(4) };
+        let skip = cx.g.below(3);
         if first != 0 || skip != 0 {
-            lines.push(format!("ql n=0 first={} skip={}", first, skip));
+            cx.lines.push(format!("ql n={} first={} skip={}", n, first, skip));
         }
     }
     if cursor {
-        let k = 1 + g.below(orders.len());
-        let vals: Vec<String> = orders[..k].iter().map(|(_, j, _)| data_val(g, &seen[*j], e[*j].ty).show()).collect();
-        lines.push(format!("qa n=0 kind={} v={}", if g.chance(3, 5) { "after" } else { "before" }, vals.join("|")));
+        let k = 1 + cx.g.below(orders.len());
+        let mut vals: Vec<String> = vec![];
+        for (_, j, _) in orders[..k].iter() {
+            vals.push(data_val(cx.g, &cx.seen[ent][*j], e[*j].ty).show());
+        }
+        cx.lines.push(format!("qa n={} kind={} v={}", n, if cx.g.chance(3, 5) { "after" } else { "before" }, vals.join("|")));
     }
+    n
 }
 
 pub fn gen(seed: u64, n_cases: usize, out: &str, tier: &str) {
     let mut g = Gen::new(seed ^ 0xC0551);
     let mut w = BufWriter::new(std::fs::File::create(out).unwrap());
-    let max_rows = if tier == "quick" { 12 } else { 30 };
+    let max_rows = if tier == "quick" { 12 } else { 24 };
     let mut n_queries = 0;
     for id in 0..n_cases {
         let s = gen_schema(&mut g);
@@ -174,6 +229,9 @@ pub fn gen(seed: u64, n_cases: usize, out: &str, tier: &str) {
             writeln!(w, "ent k={} opt={}", i, ["none", "none", "nofts", "empty"][g.below(4)]).unwrap();
             for (j, f) in e.iter().enumerate() {
                 let mut l = format!("fld e={} k={} ty={} mod={}", i, j, f.ty, f.md);
+                if f.ty == 'R' || f.ty == 'A' {
+                    l.push_str(&format!(" to={}", f.to));
+                }
                 if let Some(dv) = &f.dv {
                     l.push_str(&format!(" dv={}", dv.show()));
                 }
@@ -189,6 +247,7 @@ pub fn gen(seed: u64, n_cases: usize, out: &str, tier: &str) {
         writeln!(w, "build").unwrap();
         let total: usize = s.iter().map(|_| g.below(max_rows + 1)).sum();
         let split = g.below(total + 1);
+        let mut by_ent: Vec<Vec<u64>> = vec![vec![]; s.len()];
         let mut seen: Vec<Vec<Vec<Val>>> = s.iter().map(|e| vec![vec![]; e.len()]).collect();
         let mut upgraded = false;
         for r in 0..total {
@@ -199,37 +258,72 @@ pub fn gen(seed: u64, n_cases: usize, out: &str, tier: &str) {
             let id = (r + 1) as u64;
             let e = g.below(s.len());
             let mut vals = vec![format!("0:I{}", id)];
+            let mut refs: Vec<String> = vec![];
             seen[e][0].push(Val::Int(id as i64));
             for (j, f) in s[e].iter().enumerate().skip(1) {
                 if f.late && !upgraded {
                     continue;
                 }
-                let now_default = f.md == 'd' || (f.then.is_some() && upgraded);
-                let give = match f.md {
-                    'r' => true,
-                    'n' if !now_default => g.chance(2, 3),
-                    _ => g.chance(1, 2),
-                };
-                if give {
-                    let v = if f.md == 'n' && !now_default && g.chance(1, 3) { Val::Null } else { pool_val(f.ty, &mut g) };
-                    if v != Val::Null {
-                        seen[e][j].push(v.clone());
+                match f.ty {
+                    'R' => {
+                        let cand = &by_ent[f.to];
+                        if !cand.is_empty() && g.chance(4, 5) {
+                            refs.push(format!("{}:{}", j, cand[g.below(cand.len())]));
+                        }
                     }
-                    vals.push(format!("{}:{}", j, v.show()));
+                    'A' => {
+                        let cand = &by_ent[f.to];
+                        if !cand.is_empty() {
+                            let mut ids: Vec<u64> = vec![];
+                            for _ in 0..g.below(5) {
+                                let t = cand[g.below(cand.len())];
+                                if !ids.contains(&t) {
+                                    ids.push(t);
+                                }
+                            }
+                            if !ids.is_empty() {
+                                refs.push(format!("{}:{}", j, ids.iter().map(|x| x.to_string()).collect::<Vec<_>>().join(".")));
+                            }
+                        }
+                    }
+                    _ => {
+                        let now_default = f.md == 'd' || (f.then.is_some() && upgraded);
+                        let give = match f.md {
+                            'r' => true,
+                            'n' if !now_default => g.chance(2, 3),
+                            _ => g.chance(1, 2),
+                        };
+                        if give {
+                            let v = if f.md == 'n' && !now_default && g.chance(1, 3) { Val::Null } else { pool_val(f.ty, &mut g) };
+                            if v != Val::Null {
+                                seen[e][j].push(v.clone());
+                            }
+                            vals.push(format!("{}:{}", j, v.show()));
+                        }
+                    }
                 }
             }
-            writeln!(w, "row id={} e={} v={} r=", id, e, vals.join("|")).unwrap();
+            writeln!(w, "row id={} e={} v={} r={}", id, e, vals.join("|"), refs.join("|")).unwrap();
+            by_ent[e].push(id);
         }
         if !upgraded {
             writeln!(w, "upgrade").unwrap();
         }
         writeln!(w, "sqltbl").unwrap();
-        for _ in 0..(4 + g.below(5)) {
+        writeln!(w, "sqledge").unwrap();
+        for _ in 0..(3 + g.below(3)) {
             let ent = g.below(s.len());
-            let mut lines = vec![];
-            gen_query(&mut g, &s[ent], ent, &seen[ent], &mut lines);
-            for l in &lines {
-                writeln!(w, "{}", l).unwrap();
+            let with_subs = g.chance(1, 2);
+            let mut cx = Ctx { g: &mut g, s: &s, seen: &seen, lines: vec![], next_node: 0, alias_n: 0 };
+            gen_node(&mut cx, ent, 0, with_subs);
+            // node 0 must be declared first (it resets the node table): move the root's `q` line to the front
+            let lines = cx.lines;
+            let root_at = lines.iter().position(|l| l.starts_with("q n=0 ")).unwrap();
+            writeln!(w, "{}", lines[root_at]).unwrap();
+            for (k, l) in lines.iter().enumerate() {
+                if k != root_at {
+                    writeln!(w, "{}", l).unwrap();
+                }
             }
             writeln!(w, "run").unwrap();
             writeln!(w, "sqlck").unwrap();
